@@ -249,7 +249,12 @@ class Mixed:
                     e["neg"], e["mag"] = v < 0, [int(c) for c in str(abs(v))]
                     e["mag8"], e["mag16"] = [int(c, 8) for c in "%o" % abs(v)], [int(c, 16) for c in "%x" % abs(v)]
             return [e]
-        self.add("get %s %d %s %s" % (T, h, hx(g), hx(k)), conv)
+        # the ...Def getters are the plain getters plus a default for an absent key: the same answers for every key that exists,
+        # by whichever form its section is named
+        if self.r.random() < 0.4:
+            self.add("getdef %s %d %s %s %s" % (T, h, hx(g), hx(k), "1" if T == "Bool" else "4242"), conv)
+        else:
+            self.add("get %s %d %s %s" % (T, h, hx(g), hx(k)), conv)
 
     def op_ext(self, h):
         g, k = self.pick_gk(self.keys + ["a", "b", "k0", "k1"], h)
